@@ -12,7 +12,7 @@ from mirsym.values import *
 from mirsym.engine import TRUE, FALSE, clone_val
 from mirsym.models import eq_term, and_all, utf8_valid
 
-FORMS = ['min', 1, 2, 4]
+FORMS = ['min', 1, 2, 4, 8]
 KINDS = [1, 5, 7, 9, 11, 13, 15, 24]
 
 
@@ -260,7 +260,7 @@ class Helpers(Lane):
 def body(chk):
     quick = chk.tier == 'quick'
     p = (2, 1, 1, False) if quick else tier_param('C03', (3, 2, 2, True))
-    run_lane(chk, ResponseDecode, p, bounds={'strings': f'<= {p[0]} bytes (valid UTF-8 by z3 predicate)', 'referrals': p[1], 'controls': p[2], 'length forms': 'short/81/82/84 ' + ('independently per level (envelope, operation, inner)' if p[3] else 'one form for all inner levels, envelope same or short'),
+    run_lane(chk, ResponseDecode, p, bounds={'strings': f'<= {p[0]} bytes (valid UTF-8 by z3 predicate)', 'referrals': p[1], 'controls': p[2], 'length forms': 'short/81/82/84/88 ' + ('independently per level (envelope, operation, inner)' if p[3] else 'one form for all inner levels, envelope same or short'),
                                              'result code': '0..2^31-1 in 1..4 octets', 'message id': '1..4 octets', 'response kinds': KINDS},
              need_regions=('controls', 'referrals', 'long-form', 'exop'))
     run_lane(chk, Helpers, (), bounds={'result code': 'all u32', 'helpers': Helpers.FNS},
